@@ -113,6 +113,15 @@ def build(repo: str) -> Dict[str, Any]:
         out[key] = {"by": shape or "unrecognised", "rows": [list(r) for r in rows]}
         if prob:
             out["unrecognised"].append(f"{rel}: {prob}")
+    # the order in which the XML writer emits the children of <levelType>: the loop over the dict of adapter/_generic.py
+    fn = _find_fn(xt, "data_specification_iec61360_to_xml")
+    loops = [n for n in ast.walk(fn) if isinstance(n, ast.For) and "IEC61360_LEVEL_TYPES" in _src(n.iter)] if fn else []
+    if len(loops) == 1 and _src(loops[0].iter) == "_generic.IEC61360_LEVEL_TYPES.items()" and len(loops[0].body) == 1 \
+            and re.fullmatch(r"\w+\.append\(_generate_element\(NS_AAS \+ (\w+), text=boolean_to_xml\((\w+) in obj\.level_types\)\)\)", _src(loops[0].body[0])):
+        out["xmlLevelTypeLoop"] = "dictItems"
+    else:
+        out["xmlLevelTypeLoop"] = "unrecognised"
+        out["unrecognised"].append(f"{XML}: data_specification_iec61360_to_xml: the loop that emits the levelType children")
     return out
 
 
@@ -131,4 +140,7 @@ def emit_lean(d: Dict[str, Any]) -> str:
         "/-- `object_store_to_xml_element` (XML): the same -/",
         f"def xmlStoreBy : String := {q(d['xmlStore']['by'])}",
         f"def xmlStoreRows : List (String × String) := {rows(d['xmlStore']['rows'])}", "",
+        "/-- how `data_specification_iec61360_to_xml` emits the children of `levelType`: dictItems = one child per entry of",
+        "    `_generic.IEC61360_LEVEL_TYPES`, in the dict's order -/",
+        f"def xmlLevelTypeLoop : String := {q(d['xmlLevelTypeLoop'])}", "",
         "end Basyx.Gen.Dispatch", ""])
